@@ -108,6 +108,11 @@ COMMENTED = [
     "    # the retain\n    retain (\n        # keep it\n        S.y,\n    )\n}\n\n# the call\ncall P(\n    # arg\n    x = 1,\n)\n",
     "stage S(\n    in  map x,\n    src py \"s\",\n)\n\ncall S(\n    x = {\n        # about a\n        \"a\": [\n            # first\n            1,\n            # second\n            2,\n        ],\n"
     "        # about b\n\n        \"b\": {\n            # inner\n            \"c\": null,\n        },\n    },\n)\n",
+    # comments between the split keyword and what is split (a reference, a literal)
+    "stage S(\n    in  int x,\n    out int y,\n    src py \"s\",\n)\n\npipeline P(\n    in  int[] xs,\n    out int[] ys,\n    out int[] zs,\n)\n{\n"
+    "    map call S(\n        x = split\n            # what is split here\n            self.xs,\n    )\n\n"
+    "    map call S as T(\n        x = split\n            # a literal that is split\n            [1, 2],\n    )\n\n"
+    "    return (\n        ys = S.y,\n        zs = T.y,\n    )\n}\n",
     # old modifier syntax with comments
     "stage S(\n    in  int x,\n    out int y,\n    src py \"s\",\n)\n\npipeline P(\n    in  int x,\n    out int y,\n)\n{\n    # the call\n    call local S(\n        # bind\n        x = self.x,\n    )\n\n"
     "    return (\n        y = S.y,\n    )\n}\n",
